@@ -107,13 +107,14 @@ def condfail_cases(rng, tier):
         nm = names.get(c, '')
         if nm in SKIP_ARM or nm in SKIP_THUMB:
             continue
-        plan.append((kind, w))
-    # the generic-coprocessor instructions (p14; CPACR at its reset value denies the access): a failing condition must win over the
+        plan.append((kind, w, False))
+    # the generic-coprocessor instructions (p1, and p14; CPACR at its reset value denies the access to p1): a failing condition must win over the
     # acceptance test, i.e. no Undefined Instruction exception; ARM words and the same bit patterns as 32-bit Thumb words
-    for base in (0x0C521E10, 0x0C421E10, 0x0E111E10, 0x0E011E10, 0x0E000E00, 0x0D911E04, 0x0D811E04, 0x0C911E04):
-        plan.append(('arm', base))
-        plan.append(('t32', 0xE0000000 | base))
-    for kind, w in plan:
+    for base in (0x0C521110, 0x0C421110, 0x0E111110, 0x0E011110, 0x0E000100, 0x0D911104, 0x0D811104, 0x0C911104,
+                 0x0C521E10, 0x0E111E10):
+        plan.append(('arm', base, True))
+        plan.append(('t32', 0xE0000000 | base, True))
+    for kind, w, strict in plan:
         cond = rng.randrange(14)
         nzcv = FAIL[cond]
         st = stepgen.random_state(rng, t, thumb=(kind != 'arm'), mpu=False)
@@ -133,8 +134,8 @@ def condfail_cases(rng, tier):
         st['sys'][icpsr] = cpsr
         st['sys'][t['sys_names'].index('event_register')] = rng.getrandbits(1)
         stepgen.put_instr(st, w, 16 if kind == 't16' else 32)
-        out.append({'impl': {'kind': 'step_condfail', 'state': stepgen.clean(st), 'length': length}, 'model': None, 'spec': '[0]',
-                    'label': 'condfail_' + kind, 'nontrivial': True})
+        out.append({'impl': {'kind': 'step_condfail', 'state': stepgen.clean(st), 'length': length, 'strict': strict}, 'model': None,
+                    'spec': '[0]', 'label': ('coproc_condfail_' if strict else 'condfail_') + kind, 'nontrivial': True})
     return out
 
 
